@@ -84,7 +84,7 @@ func VHIter() {
 // VHEnum: Each/Any/All/Find/Select/Map with arbitrary predicate and mapping functions (C14).
 func VHEnum() {
 	s := VGSmall()
-	containers.VEnumStep(containers.VEnum{Recv: s, Indexed: true,
+	containers.VEnumStep(containers.VEnum{Recv: s, Inv: func(c any) { rbt.VInv(c.(*Set[int]).tree) }, Indexed: true,
 		Seq:    func(c any) ([]int, []int) { vs := c.(*Set[int]).Values(); return containers.VIdx(len(vs)), vs },
 		Each:   s.Each, Any: s.Any, All: s.All, Find: s.Find,
 		Select: func(f func(a, b int) bool) any { return s.Select(f) },
@@ -167,4 +167,10 @@ func VHString() {
 	s := c.String()
 	v.EndOp()
 	v.Assert(strings.HasPrefix(s, "TreeSet"), "C15:string-begins-with-container-name")
+}
+
+// VHHistory: D operations in a row from the constructor (see VMapHistory).
+func VHHistory() {
+	s := NewWith[int](vl.Cmp)
+	sets.VSetHistory(s, false, "TreeSet", func() { rbt.VInv(s.tree) })
 }
